@@ -7,6 +7,7 @@
 From JV Require Import Sem Gen Spec SpecX.
 From JV.Hand Require Import Interop.
 From JV.Proofs Require Import SpecFacts Cal Core Canon InteropProofs.
+Require JV.Proofs.Glue_C16_interop.
 Open Scope Z_scope.
 
 (* foreign -> julian: never reaches an `expect`; the proleptic-Gregorian date with the same year/month/day,
@@ -18,7 +19,7 @@ Proof. exact from_foreign_ok. Qed.
 Print Assumptions C16_from_foreign.
 Theorem C16_day_count : forall y m d, valid_md (gleap y) m d ->
   jdn_g y m d - 1721425 = 365 * (y - 1) + (y - 1) / 4 - (y - 1) / 100 + (y - 1) / 400 + cum (gleap y) m + d.
-Proof. intros y m d _. unfold jdn_g, G0. lia. Qed.
+Proof. exact JV.Proofs.Glue_C16_interop.C16_day_count_lemma. Qed.
 Print Assumptions C16_day_count.
 
 (* julian -> foreign, from a date of ANY calendar: the foreign date of the same day if in range, an error
@@ -32,7 +33,7 @@ Theorem C16_roundtrip : forall ymin ymax u8 f, RangeOk ymin ymax -> f_valid ymin
 Proof. exact foreign_roundtrip. Qed.
 Print Assumptions C16_roundtrip.
 Theorem C16_ranges_fit : RangeOk chrono_ymin chrono_ymax /\ RangeOk time_ymin time_ymax.
-Proof. split; [exact chrono_range|exact time_range]. Qed.
+Proof. exact JV.Proofs.Glue_C16_interop.C16_ranges_fit_lemma. Qed.
 Print Assumptions C16_ranges_fit.
 
 Example C16_ex :
